@@ -174,6 +174,38 @@ CHECKS = {
         design='4 (C09)',
         note='bit damage inside an index is outside the property; one known '
              'finding (stale pre-pack index passing the sanity heuristic)'),
+    'C11': dict(
+        technique='explicit-state exploration of all operation sequences up '
+                  'to a depth on a real connection against an object-state '
+                  'reference model',
+        text='All sequences (depth 6 quick / 7 thorough on MappingStorage, one '
+             'less on FileStorage) over modify / link / explicit add / unlink '
+             '/ commit / abort / a rival commit that makes our commit conflict '
+             '/ commit with another participant failing in tpc_vote / commit '
+             'with the storage failing in tpc_finish / close + reopen. After '
+             'every step each tracked object (existing and new) is compared '
+             'with the model: _p_jar/_p_oid ownership, value, change flags; '
+             'after a commit the exact set of stored oids and their single '
+             'tid; an observer connection must see exactly the committed '
+             'state; close inside a transaction must be refused.',
+        design='5 (C11)',
+        note='attributes of objects that belong to no database are not '
+             'compared until they are added again'),
+    'C12': dict(
+        technique='explicit-state exploration of all savepoint programs up to '
+                  'a depth on a real connection against per-handle model '
+                  'snapshots',
+        text='All sequences (depth 6 quick / 7 thorough) over modify / link / '
+             'add / unlink / savepoint / rollback to any live handle / commit '
+             '/ abort, with up to 2 (3) live handles and 2 (3) tracked '
+             'objects. After every rollback every object must show the '
+             'snapshot state of that handle and objects created after it must '
+             'be un-added - also on the second and third rollback to the same '
+             'handle; commits must store exactly the final states; the '
+             'observer never sees uncommitted data; no TmpStore file survives '
+             'the transaction.',
+        design='5 (C12)',
+        note='blob savepoints are covered by C13'),
     'C19': dict(
         technique='explicit-state exploration of the real fsIndex over a '
                   '12-key alphabet, every query compared with a sorted dict',
